@@ -150,21 +150,25 @@ def describe(c):
             + " ; schedule " + " ".join(map(str, c["sched"])))
 
 
-def run_mp(method, calls=4, hold=0.002):
+def run_mp(method, calls=12, hold=0.001, control=False):
     """real processes under a pty; returns (intervals or None, info)"""
     master, slave = pty.openpty()
     out = tempfile.NamedTemporaryFile(prefix="c14mp_", suffix=".json", delete=False)
     out.close()
-    case = {"mp": {"method": method, "calls": calls, "hold": hold}}
+    case = {"mp": {"method": method, "calls": calls, "hold": hold, "control": control}}
+    info = {"method": method, "control": control}
     try:
         p = subprocess.Popen([core.IMPL_PY, str(core.VERIF / "harness" / "impl" / "impl_c14.py"), "--mp",
                               json.dumps(case), out.name], stdin=slave, stdout=slave, stderr=slave,
                              env=core.impl_env(), cwd="/", start_new_session=True)
         try:
-            rc = p.wait(timeout=90)
+            rc = p.wait(timeout=150)
         except subprocess.TimeoutExpired:
-            p.kill()
-            return None, {"method": method, "skipped": "timeout"}
+            try:
+                os.killpg(p.pid, 9)
+            except OSError:
+                p.kill()
+            return None, dict(info, skipped="timeout")
         txt = open(out.name).read()
         if rc != 0 or not txt:
             tail = b""
@@ -173,18 +177,21 @@ def run_mp(method, calls=4, hold=0.002):
                 tail = os.read(master, 4000)
             except OSError:
                 pass
-            return None, {"method": method, "skipped": f"driver rc={rc}: {tail[-600:].decode(errors='replace')}"}
+            return None, dict(info, skipped=f"driver rc={rc}: {tail[-600:].decode(errors='replace')}")
         res = json.loads(txt)
         if "skipped" in res:
-            return None, {"method": method, "skipped": res["skipped"]}
+            return None, dict(info, skipped=res["skipped"])
         st = res["stamps"]
         iv = [(st[i], st[i + 1]) for i in range(0, len(st), 2)]
-        missing = sum(1 for a, b in iv if a == 0 or b == 0)
         iv = [(a, b) for a, b in iv if a and b]
         base = min(a for a, _ in iv) if iv else 0
-        iv = [(a - base, b - base) for a, b in iv]
-        return iv, {"method": method, "intervals": len(iv), "missing": missing, "alive": res["alive"],
-                    "exit": res["exit"], "lock_type_after": res["lock_type"]}
+        iv = sorted((a - base, b - base) for a, b in iv)
+        info.update(intervals=len(iv), expected=5 * calls, alive=res["alive"], exit=res["exit"],
+                    early_calls_during_start=res["early_calls"], lock_after=res["lock_type"],
+                    span_ms=round((iv[-1][1] - iv[0][0]) / 1e6, 1) if iv else 0,
+                    busy_ms=round(sum(b - a for a, b in iv) / 1e6, 1),
+                    adjacent_overlaps=sum(1 for x, y in zip(iv, iv[1:]) if y[0] < x[1]))
+        return iv, info
     finally:
         os.close(master)
         os.close(slave)
@@ -257,14 +264,24 @@ def run(ctx):
         "the terminal answers requests in FIFO order",
     ]
     if not ctx.replay:
-        runs, infos = [], []
-        for method in (["fork", "spawn"] if ctx.quick else ["fork", "spawn", "forkserver", "fork", "spawn"]):
+        from concurrent.futures import ThreadPoolExecutor
+
+        plan = [("fork", False), ("spawn", False), ("spawn", True)]
+        if not ctx.quick:
+            plan += [("forkserver", False), ("fork", False), ("spawn", False)]
+
+        def one(mc):
             try:
-                iv, info = run_mp(method, calls=4 if ctx.quick else 12)
-            except Exception as e:  # evidence only: never an alarm by itself
-                iv, info = None, {"method": method, "skipped": f"{type(e).__name__}: {e}"}
+                return run_mp(mc[0], calls=12 if ctx.quick else 40, control=mc[1])
+            except Exception as e:  # evidence only: an infrastructure problem is never an alarm
+                return None, {"method": mc[0], "control": mc[1], "skipped": f"{type(e).__name__}: {e}"}
+
+        with ThreadPoolExecutor(max_workers=3) as ex:
+            outs = list(ex.map(one, plan))
+        runs, infos = [], []
+        for (method, control), (iv, info) in zip(plan, outs):
             infos.append(info)
-            if iv:
+            if iv and not control:  # the control run is expected to overlap (no hand-over)
                 runs.append((method, iv))
         if runs:
             terms = [core.coq_list(iv, lambda p: "(%s, %s)" % (core.z(p[0]), core.z(p[1]))) for _, iv in runs]
